@@ -104,6 +104,10 @@ Of(i) == /\ UNCHANGED <<seq, mem, siz>>      \* a_*_of: negative counts from the
 Top == /\ UNCHANGED <<seq, mem, siz>>
        /\ last' = Rec("top", 0, 0, <<>>, IF n > 0 THEN n - 1 ELSE NULLSLOT, 0, 0, 0, 0)
 
+\* traversal macros and accessors: read-only; what they yield is judged on the recorded event (forward order, reverse
+\* order, index ranges, accessor pointers)
+Walk == /\ UNCHANGED <<seq, mem, siz>> /\ last' = Rec("walk", 0, 0, <<>>, NULLSLOT, 0, 0, 0, 0)
+
 \* destroy and create anew with element-size argument s (0 is accepted and means 1) and, for the
 \* buffer, capacity m; then push v once (vec) / until one more than fits (buf: the last is refused)
 Create(s, m, v) ==
@@ -115,6 +119,7 @@ Create(s, m, v) ==
   /\ last' = Rec("create", s, m, <<>>, NULLSLOT, v, 0, 0, IF s = 0 THEN 5 ELSE 1)
 
 Next ==
+  \/ Walk
   \/ \E s \in Sizes \cup {0}, m \in (IF IsVec THEN {0} ELSE BufMems), v \in Vals : Create(s, m, v)
   \/ \E v \in Vals : InsertOp("push_back", HUGE, v) \/ InsertOp("push_fore", 0, v) \/ PushSort(v)
   \/ \E v \in Vals, i \in Idx : InsertOp("insert", i, v)
